@@ -6,21 +6,4 @@ CONSTANTS
   Thresholds <- ThrQuick
 SPECIFICATION Spec
 CHECK_DEADLOCK FALSE
-INVARIANT TypeOK
-INVARIANT L_Partitions
-INVARIANT L_PartProbs
-INVARIANT L_GenoHW
-INVARIANT L_ProjInb
-INVARIANT L_ProjMatrix
-INVARIANT L_ProjRandomMating
-INVARIANT L_CallErr
-INVARIANT L_NoCallSemantics
-INVARIANT L_NoCall
-INVARIANT L_Enough
-INVARIANT L_Continuity
-INVARIANT L_Total
-INVARIANT L_StageTotals
-INVARIANT L_Corrected
 INVARIANT L_TwoPops
-INVARIANT L_DeepIsProjection
-INVARIANT L_PointMass
